@@ -557,7 +557,8 @@ example : Load.load { relayDoc with conns := relayDoc.conns.map (fun k => if tru
   apply element_perm_ends relayDoc (fun _ => true) _ relay_load
   intro L hL k hk
   rw [relay_prepare] at hL
-  cases hL
+  have hL' : relayL = L := Except.ok.inj hL
+  subst hL'
   simp only [relayDoc, List.mem_cons, List.not_mem_nil, or_false] at hk
   rcases hk with rfl | rfl
   · exact ⟨⟨[("store0_mV", 1)], .inn, .none, none, none, "mV"⟩, ⟨[("volt", 1)], .inn, .out, none, none, "volt"⟩,
